@@ -67,7 +67,10 @@ static void obs(ST& st, int universe) {
     eq_first = e; }
   std::vector<std::pair<S, long>> all; for (auto sh : st.complex_simplex_range()) all.push_back({verts(st, sh), F(st.filtration(sh))}); std::sort(all.begin(), all.end());
   std::cout << cplx_line(st) << "\n";
-  std::cout << "n " << st.num_simplices() << " dim " << st.dimension() << " bydim " << vh::join(st.num_simplices_by_dimension()) << "\n";
+  { // both orders of the two calls that may lower a stale dimension bound (chosen by the parity of the size, so that a history replays identically)
+    size_t ns = st.num_simplices(); int dim_; std::vector<size_t> byd;
+    if (ns % 2) { byd = st.num_simplices_by_dimension(); dim_ = st.dimension(); } else { dim_ = st.dimension(); byd = st.num_simplices_by_dimension(); }
+    std::cout << "n " << ns << " dim " << dim_ << " bydim " << vh::join(byd) << "\n"; }
   { S vs; for (auto v : st.complex_vertex_range()) vs.push_back((int)v); std::sort(vs.begin(), vs.end()); std::cout << "verts " << vh::join(vs) << "\n"; }
   { std::vector<S> sk; for (auto sh : st.skeleton_simplex_range(1)) sk.push_back(verts(st, sh)); std::cout << "skel1 " << Ws(sk) << "\n"; }
   { std::vector<S> sk; for (auto sh : st.skeleton_simplex_range(2)) sk.push_back(verts(st, sh)); std::cout << "skel2 " << Ws(sk) << "\n"; }
@@ -167,10 +170,12 @@ int main(int argc, char** argv) {
             long K = L(t[1]); if (dirty) { st->clear_filtration(); dirty = false; }
             std::vector<std::pair<typename ST::Simplex_handle, typename ST::Filtration_value>> saved; size_t kept = 0;
             for (auto sh : st->complex_simplex_range()) { if (F(st->filtration(sh)) >= K) saved.push_back({sh, st->filtration(sh)}); else ++kept; }
-            if (kept == 0) return "orderinf none";      // (everything ignored: the library falls back to the default initialisation)
             for (auto& p : saved) st->assign_filtration(p.first, std::numeric_limits<typename ST::Filtration_value>::infinity());
             st->clear_filtration(); st->initialize_filtration(true);
-            r << "orderinf"; for (auto sh : st->filtration_simplex_range()) r << " " << W(verts(*st, sh)) << ":" << F(st->filtration(sh));
+            size_t listed = 0; r << "orderinf";
+            for (auto sh : st->filtration_simplex_range()) { ++listed; r << " " << W(verts(*st, sh)) << ":"; if (std::isinf(st->filtration(sh))) r << "inf"; else r << F(st->filtration(sh)); }
+            if (listed == 0) { r.str(""); r << "orderinf none"; }
+            (void)kept;
             for (auto& p : saved) st->assign_filtration(p.first, p.second);
             st->clear_filtration(); return r.str(); }
           return "orderinf none"; }
